@@ -26,7 +26,11 @@ func probe() {
 		r := l.Front()
 		fmt.Printf("lockFree=%v leaked front: len=%d value=%v next=%v\n", lockFree, l.Len(), r.Value(), r.Next())
 		try("ds Remove(sentinel)", func() { fmt.Println("ds Remove(sentinel) ->", l.Remove(r)) })
-		try("ds PushBackList(zombie)", func() { m := ds.NewList[int](lockFree); m.PushBackList(l); fmt.Println("ds PushBackList(zombie) ->", m.Values()) })
+		try("ds PushBackList(zombie)", func() {
+			m := ds.NewList[int](lockFree)
+			m.PushBackList(l)
+			fmt.Println("ds PushBackList(zombie) ->", m.Values())
+		})
 	}
 	l := list.New()
 	a := l.PushBack(1)
@@ -35,5 +39,9 @@ func probe() {
 	r := l.Front()
 	fmt.Printf("container/list leaked front: len=%d value=%v next=%v\n", l.Len(), r.Value, r.Next())
 	try("cl Remove(sentinel)", func() { fmt.Println("cl Remove(sentinel) ->", l.Remove(r)) })
-	try("cl PushBackList(zombie)", func() { m := list.New(); m.PushBackList(l); fmt.Println("cl PushBackList(zombie) ->", m.Len(), m.Front().Value) })
+	try("cl PushBackList(zombie)", func() {
+		m := list.New()
+		m.PushBackList(l)
+		fmt.Println("cl PushBackList(zombie) ->", m.Len(), m.Front().Value)
+	})
 }
